@@ -147,6 +147,17 @@ pub fn run(ctx: &mut Ctx) {
             v.extend_from_slice(&p.bytes(tail));
             call(ctx, &entry, "valid_c1_short_tail", &v, || sk.decrypt(&v, lay.1, model(lay.0)).is_ok());
         }
+        // well-formed C1 followed by a very long tail (C2 beyond 2^16, 2^21, 2^24 bytes: KDF block counts of every width)
+        for big in [65536usize + 3, (1 << 21) + 7, (1 << 24) + 1, (1 << 24) + 40] {
+            idx += 1;
+            if !ctx.mine(idx) {
+                continue;
+            }
+            let mut v = ct[..l1].to_vec();
+            v.extend_from_slice(&p.bytes(32));
+            v.resize(l1 + 32 + big, 0x5a);
+            call(ctx, &entry, "valid_c1_huge_tail", &v, || sk.decrypt(&v, lay.1, model(lay.0)).is_ok());
+        }
     }
     // decrypt_asn1
     let raw = r2::encrypt(&pk, &msg, &k, Order::C1C3C2, false).unwrap();
@@ -296,7 +307,7 @@ pub fn run(ctx: &mut Ctx) {
     }
     // kdf and compute_za
     for zlen in [0usize, 1, 31, 32, 64, 65, 200] {
-        for klen in [0usize, 1, 31, 32, 33, 64, 1000, 100_000] {
+        for klen in [0usize, 1, 31, 32, 33, 64, 1000, 100_000, (1 << 21) + 7, (1 << 24) + 1] {
             idx += 1;
             if !ctx.mine(idx) {
                 continue;
